@@ -292,34 +292,33 @@ def _revalidation(ctx, nz):
                 return True
         return False
 
-    def not_placed(edge):
-        return K.truth_edge(nz, edge, '%s.server' % var, False)
+    def not_placed(atom):
+        return atom.key[0] == 'truth' and not atom.key[2] and \
+            atom.key[1] == '%s.server' % var
 
-    def label_ok(edge):
-        for atom in nz.facts_of_edge(edge):
-            key = atom.key
-            if key[0] == 'in' and key[3] and \
-                    key[1] == '%s.allocation.label' % var and \
-                    key[2].endswith('.labels'):
-                return True
-            if key[0] == 'is' and key[3] and \
-                    key[1] == '%s.allocation' % var and key[2] == 'None':
-                return True
-        return False
+    def label_ok(atom):
+        key = atom.key
+        if key[0] == 'in' and key[3] and \
+                key[1] == '%s.allocation.label' % var and \
+                key[2].endswith('.labels'):
+            return True
+        if key[0] == 'is' and key[3] and \
+                key[1] == '%s.allocation' % var and key[2] == 'None':
+            return True
+        return not_placed(atom)
 
-    def traits_ok(edge):
-        for atom in nz.facts_of_edge(edge):
-            key = atom.key
-            if key[0] == 'truth' and key[2] and \
-                    key[1].endswith('.traits.has(%s.traits)' % var):
-                return True
-        return False
-    for name, okedge in (('partition label', label_ok),
+    def traits_ok(atom):
+        key = atom.key
+        if key[0] == 'truth' and key[2] and \
+                key[1].endswith('.traits.has(%s.traits)' % var):
+            return True
+        return not_placed(atom)
+    for name, okatom in (('partition label', label_ok),
                          ('required traits', traits_ok)):
         path = K.find_path_cp(
             graph, head, [head], cut_node=unplaces,
-            cut_edge=lambda e, f=okedge: not_placed(e) or f(e) or
-            e.kind == 'done', follow_exc=False)
+            cut_edge=lambda e, f=okatom: e.kind == 'done' or
+            K.edge_establishes(ctx, func, nz, e, f), follow_exc=False)
         ctx.ob('C03.4', func, head, path is None,
                'a placement is kept only if the server still satisfies the '
                '%s of the instance' % name,
